@@ -22,14 +22,19 @@ let spec_of_file = function
   | Some Dir -> "d"
   | Some (Sym t) -> "s" ^ string_of_int (int_of_n t)
   | Some (Reg (c, m)) -> Printf.sprintf "r%d.%o" (int_of_n c) (int_of_n m)
-let obsts s = List.map (fun it -> match String.split_on_char ':' it with
-    | [p; k] -> (n_of_int (int_of_string p), k = "s") | _ -> failwith "bad obst") (split_c s)
+(* ob= / rob= items: p:o | p:s = directory at the staging name (empty / not empty); p:f<octal> = stale regular staging file *)
+let dirs s = List.filter_map (fun it -> match String.split_on_char ':' it with
+    | [p; k] when k = "o" || k = "s" -> Some (n_of_int (int_of_string p), k = "s")
+    | [_; _] -> None | _ -> failwith "bad obst") (split_c s)
+let stales s = List.filter_map (fun it -> match String.split_on_char ':' it with
+    | [p; k] when String.length k > 1 && k.[0] = 'f' -> Some (n_of_int (int_of_string p), n_of_int (oct (String.sub k 1 (String.length k - 1))))
+    | _ -> None) (split_c s)
 let faults_of m = {
   f_fail = List.map (fun s -> n_of_int (int_of_string s)) (split_c (get m "fail"));
   f_crash = (match get m "crash" with "-" -> None | s -> Some (n_of_int (int_of_string s)));
   f_ha = (get m "ha" = "ok" || get m "ha" = "-");
   f_hr = (get m "hr" = "ok" || get m "hr" = "-");
-  f_ob = obsts (get m "ob"); f_rob = obsts (get m "rob") }
+  f_ob = dirs (get m "ob"); f_rob = dirs (get m "rob"); f_st = stales (get m "ob"); f_rst = stales (get m "rob") }
 let starts p s = String.length s >= String.length p && String.sub s 0 (String.length p) = p
 (* [extractor_rejected]: for the one input class the property lets the extractor judge either way (a member name
    repeated in the archive, last body = the vouched one: tam = dupl / dups) the implementation's answer is taken:
@@ -88,7 +93,7 @@ let hex_of l = if l = [] then "-" else String.concat "" (List.map (fun x -> Prin
 let () =
   let variant = if Array.length Sys.argv > 3 then Sys.argv.(3) else "repaired" in
   let v = match variant with
-    | "repaired" -> repaired | "pre_31f4cb6" -> pre_31f4cb6
+    | "repaired" | "reuses_stale" -> repaired | "pre_31f4cb6" -> pre_31f4cb6
     | "pre_88f69f7" -> pre_88f69f7 | "pre_b6afef3" -> pre_b6afef3
     | "keeponly" -> { v_mode_fix = true; v_curm_fix = true; v_keep_fix = true; v_stale_fix = false; v_same_fix = false }
     | "staleonly" -> { v_mode_fix = true; v_curm_fix = true; v_keep_fix = false; v_stale_fix = true; v_same_fix = false }
@@ -115,7 +120,7 @@ let () =
       let tbl = List.map (fun it -> let i = String.index it ':' in
           (int_of_string (String.sub it 0 i), file_of_spec (String.sub it (i+1) (String.length it - i - 1)))) (split_c fsi) in
       let f q = match List.assoc_opt (int_of_n q) tbl with Some x -> x | None -> None in
-      let w = ref (init_world (n_of_int (int_of_string ver)) f) in
+      let w = ref ((if variant = "reuses_stale" then init_world_reusing else init_world) (n_of_int (int_of_string ver)) f) in
       let ops = split_ops rest [] [] in
       let opno = ref (-1) in
       let segs = List.map (fun o ->
